@@ -87,6 +87,7 @@ def execute(setname, sets, history, nmix, T0=10000.0, P0=101325.0, ctl=None):
     returns (records, first_bad)"""
     species, x0s = sets[setname]
     ctl = ctl or [0] * nmix          # index into CONTROL_SETS per mixture: sharing species must not share solutions
+    pristine = copy.deepcopy(species)          # the species data as given, before any call could touch it
     mixes = [mpc.mixture.LTE(species, x0s[0], T0, P0, *CONTROL_SETS[ctl[i]]) for i in range(nmix)]
     recs, bad = [], None
     for k, (w, kind, arg) in enumerate(history):
@@ -107,7 +108,7 @@ def execute(setname, sets, history, nmix, T0=10000.0, P0=101325.0, ctl=None):
                 out, err = None, f"{type(e).__name__}: {e}"
             after = (m.T, m.P, tuple(m.x0), m.species)
             # "freshly constructed": equal species data in new objects, so nothing can be shared with the history
-            fresh = mpc.mixture.LTE(copy.deepcopy(species), list(m.x0[:-1]), m.T, m.P, *CONTROL_SETS[ctl[w]])
+            fresh = mpc.mixture.LTE(copy.deepcopy(pristine), list(m.x0[:-1]), m.T, m.P, *CONTROL_SETS[ctl[w]])
             try:
                 ref = call(fresh, meth, dt)
                 rerr = None
@@ -116,6 +117,9 @@ def execute(setname, sets, history, nmix, T0=10000.0, P0=101325.0, ctl=None):
             if bad is None:
                 if before != after or before[3] is not after[3]:
                     bad = {"step": k, "what": f"{meth} changed the visible inputs", "before": str(before[:3]), "after": str(after[:3])}
+                elif species_data(species) != species_data(pristine):
+                    bad = {"step": k, "what": f"{meth} changed the data of the (shared) species objects",
+                           "changed": [a["name"] for a, b in zip(species_data(species), species_data(pristine)) if a != b]}
                 elif err != rerr:
                     bad = {"step": k, "what": f"{meth}: exception differs from a fresh mixture", "observed": err, "fresh": rerr}
                 elif err is None and not same(out, ref):
@@ -136,6 +140,40 @@ def encode_ops(history, w, idx):
             toks.append(f"C{idx[arg[0]]}:{1 if arg[1] else 0}")
     return toks
 
+
+
+def species_data(sps):
+    """every attribute of every species, as plain comparable data"""
+    def conv(v):
+        if hasattr(v, "tolist"):
+            return v.tolist()
+        if isinstance(v, (list, tuple)):
+            return [conv(x) for x in v]
+        if isinstance(v, dict):
+            return {k: conv(x) for k, x in v.items()}
+        return v
+    return [{k: conv(v) for k, v in sp.__dict__.items()} for sp in sps]
+
+
+def shared_pool_case(rng):
+    """two mixtures over DIFFERENT species subsets (different element sets) built from one pool of species objects: after the first is
+    calculated, every output of the second must be what a mixture of freshly loaded species gives. -> None or a description"""
+    pool_names = ["CO", "CO+", "C", "C+", "O2", "O2+", "O", "O+", "O++"]
+    pool = {n: _sp.from_name(n) for n in pool_names}
+    a_names = ["CO", "CO+", "C", "C+", "O2", "O2+", "O", "O+"]
+    b_names = ["O2", "O2+", "O", "O+", "O++"]
+    T, P = rng.choice([8000.0, 14000.0, 20000.0]), rng.choice([1e4, 101325.0, 1e6])
+    A = mpc.mixture.LTE([pool[n] for n in a_names], [0.5, 0, 0, 0, 0.5, 0, 0, 0], T, P, 1e20, 1e-10, 1000)
+    B = mpc.mixture.LTE([pool[n] for n in b_names], [1, 0, 0, 0, 0], T, P, 1e20, 1e-10, 1000)
+    Bf = mpc.mixture.LTE([_sp.from_name(n) for n in b_names], [1, 0, 0, 0, 0], T, P, 1e20, 1e-10, 1000)
+    meth_a = rng.choice(["calculate_composition", "calculate_viscosity", "calculate_enthalpy"])
+    call(A, meth_a, True)
+    for meth in ("calculate_composition", "calculate_density", "calculate_enthalpy", "calculate_viscosity", "calculate_electrical_conductivity"):
+        out, ref = call(B, meth, True), call(Bf, meth, True)
+        if not same(out, ref):
+            return {"what": f"after {meth_a} on a mixture sharing species objects (other element set), {meth} of the second mixture differs from freshly loaded species",
+                    "T": T, "P": P, "observed": np.asarray(out, dtype=float).tolist(), "fresh": np.asarray(ref, dtype=float).tolist()}
+    return None
 
 
 class Injected(RuntimeError):
@@ -248,6 +286,11 @@ def check(run):
                 run.count(1, distinct_key=("raise", setname, meth, which, k))
                 if bad and found is None:
                     found = {"kind": "raising-history", "species_set": setname, "method": meth, "inner": which, "k": k, **bad}
+    for _ in range(6 if thorough else 2):
+        bad = shared_pool_case(rng)
+        run.count(1, distinct_key=("pool", _))
+        if bad and found is None:
+            found = {"kind": "raising-history", "shared_pool": True, **bad}
     for f in sorted(glob.glob(os.path.join(common.VERIF, "corpus", "C03", "*.json"))):
         case = json.load(open(f))
         bad = natural_raise(case)
